@@ -33,6 +33,10 @@ def fft_pre(ctx, binary):
     ctx.distinct_nontrivial += v["extra"].get("nontrivial_cases", 0)
     dev = ctx.build()
     ctx.replay(dev, "fft", cases, stage="replay-debug-build")
+    # beyond the listed property: the Complex<F> arithmetic the transform is built on, against Gaussian integers
+    trace, info = ctx.record(binary, "fft", mode="record-complex", stage="record-complex")
+    ctx.validate("fft", "ComplexTrace", ctx.cfg("fft", "ComplexTrace.cfg"), trace, stage="validate-complex", runs=info.get("runs", 1),
+                 keyfn=lambda m: "fft.complex: differs from Gaussian-integer arithmetic")
 
 
 SPECS = {
@@ -180,7 +184,7 @@ SPECS = {
                  "the packing of two real inputs and the half-size inverse, transcribed over the exact field GF(8191^2) -- refines the "
                  "convolution spec in every reachable plan state for all length pairs up to 9 (thorough 17); a model that ignores the "
                  "stride is rejected. S->I: TLC enumerates all call histories of <= 2 (thorough 3) calls (multiply, multiply_into on a non-zero destination, "
-                 "fft + pointwise product + fft_inv) over length pairs realising every transform size 2..32 in every grow/shrink order, and "
+                 "fft + pointwise product + fft_inv, and fft_inv_into on a longer non-zero destination) over length pairs realising every transform size 2..32 in every grow/shrink order, and "
                  "every length pair 1..17 x 1..17 as a call after a large one, with the integer convolutions the specification demands; "
                  "replayed on ONE reused FFT<f64> and FFT<f32> object per history and on fresh objects (release and debug builds). "
                  "I->S: 70 (260) calls on one reused object per float type with sizes up to 2^12 (2^16) in big->small->big, 2^k, 2^k+1 and "
